@@ -31,8 +31,134 @@ class Undecided(Exception):
     pass
 
 
+_BODY_INFO = {}
+
+
+def _place_uses(p, uses):
+    if isinstance(p, int):
+        uses.add(p)
+    else:
+        uses.add(p[0])
+        for pr in p[1]:
+            if isinstance(pr, list) and pr[0] == "i":
+                uses.add(pr[1])
+
+
+def _op_uses(o, uses):
+    if "c" in o:
+        _place_uses(o["c"], uses)
+    elif "m" in o:
+        _place_uses(o["m"], uses)
+
+
+def body_info(body):
+    """(join_blocks, live_in per block, borrowed locals) for a MIR body; cached by identity"""
+    bi = _BODY_INFO.get(id(body))
+    if bi is not None:
+        return bi
+    blocks = body["blocks"]
+    n = len(blocks)
+    preds = [0] * n
+    succs = []
+    for b in blocks:
+        ss = M.successors(b["term"])
+        succs.append(ss)
+        for x in ss:
+            preds[x] += 1
+    joins = set(i for i in range(n) if preds[i] != 1)
+    borrowed = set()
+    use = [set() for _ in range(n)]
+    defs = [set() for _ in range(n)]
+    for i, b in enumerate(blocks):
+        u, d = use[i], defs[i]
+
+        def note_use(x):
+            if x not in d:
+                u.add(x)
+        for s_ in b["s"]:
+            if "rv" in s_:
+                rv = s_["rv"]
+                tmp = set()
+                r = rv["r"]
+                if r in ("use", "cast", "repeat"):
+                    _op_uses(rv["o"], tmp)
+                elif r in ("ref", "rawptr"):
+                    _place_uses(rv["p"], tmp)
+                    pl = rv["p"]
+                    if isinstance(pl, int):
+                        borrowed.add(pl)
+                    elif not (pl[1] and pl[1][0] == "*"):
+                        borrowed.add(pl[0])
+                elif r == "discr":
+                    _place_uses(rv["p"], tmp)
+                elif r == "bin":
+                    _op_uses(rv["a"], tmp)
+                    _op_uses(rv["b"], tmp)
+                elif r == "un":
+                    _op_uses(rv["a"], tmp)
+                elif r == "agg":
+                    for o in rv["ops"]:
+                        _op_uses(o, tmp)
+                for x in tmp:
+                    note_use(x)
+                p = s_["p"]
+                if isinstance(p, int):
+                    d.add(p)
+                else:
+                    tmp2 = set()
+                    _place_uses(p, tmp2)
+                    for x in tmp2:
+                        note_use(x)
+            elif "setdiscr" in s_:
+                tmp2 = set()
+                _place_uses(s_["setdiscr"], tmp2)
+                for x in tmp2:
+                    note_use(x)
+        t = b["term"]
+        tmp = set()
+        tt = t["t"]
+        if tt == "switch":
+            _op_uses(t["d"], tmp)
+        elif tt in ("call", "tailcall"):
+            for o in t["args"]:
+                _op_uses(o, tmp)
+            if t["fn"].get("via") == "indirect":
+                _op_uses(t["fn"]["op"], tmp)
+        elif tt == "assert":
+            _op_uses(t["cond"], tmp)
+        elif tt == "drop":
+            _place_uses(t["p"], tmp)
+        elif tt == "return":
+            tmp.add(0)
+        for x in tmp:
+            note_use(x)
+        if tt == "call":
+            dp = t["dest"]
+            if not isinstance(dp, int):
+                tmp2 = set()
+                _place_uses(dp, tmp2)
+                for x in tmp2:
+                    note_use(x)
+    # the call destination is defined on the edge: treat as def at the start of the successor (conservative: not a def)
+    live_in = [set() for _ in range(n)]
+    changed = True
+    while changed:
+        changed = False
+        for i in range(n - 1, -1, -1):
+            out = set()
+            for x in succs[i]:
+                out |= live_in[x]
+            new = use[i] | (out - defs[i])
+            if new != live_in[i]:
+                live_in[i] = new
+                changed = True
+    bi = (joins, live_in, borrowed)
+    _BODY_INFO[id(body)] = bi
+    return bi
+
+
 class Frame:
-    __slots__ = ("fkey", "body", "bb", "locals", "ret_place", "ret_to", "prefix", "depth", "promoted_of")
+    __slots__ = ("fkey", "body", "bb", "locals", "ret_place", "ret_to", "prefix", "depth", "promoted_of", "post")
 
     def __init__(self, fkey, body, prefix, depth):
         self.fkey = fkey
@@ -44,6 +170,7 @@ class Frame:
         self.prefix = prefix
         self.depth = depth
         self.promoted_of = None
+        self.post = None
 
     def clone(self):
         f = Frame(self.fkey, self.body, self.prefix, self.depth)
@@ -52,6 +179,7 @@ class Frame:
         f.ret_place = self.ret_place
         f.ret_to = self.ret_to
         f.promoted_of = self.promoted_of
+        f.post = self.post
         return f
 
 
@@ -79,7 +207,7 @@ class State:
         return self.frames[-1]
 
     def key(self):
-        fr = tuple((f.fkey, f.bb, tuple(sorted(f.locals.items())), f.ret_to) for f in self.frames)
+        fr = tuple((f.fkey, f.bb, tuple(sorted(f.locals.items())), f.ret_to, f.post) for f in self.frames)
         return (fr, tuple(sorted(self.ext.items())), tuple(sorted(self.cons.items())), self.mon)
 
 
@@ -251,6 +379,12 @@ class AI:
         cell, path = self.locate(st, frame, place)
         return self.read_at(st, cell, path)
 
+    @staticmethod
+    def _havoc(root):
+        if root[0] == "sym":
+            return root if root[1].startswith("havoc:") else ("sym", "havoc:" + root[1])
+        return ("sym", "havoc:w")
+
     def write_into(self, st, root, path, newv, ty):
         """functional update of `root` at `path`."""
         if not path:
@@ -278,7 +412,7 @@ class AI:
                 exp = self.expand_sym(root, ty, None)
                 if exp is not None:
                     return self.write_into(st, exp, path, newv, None)
-            return ("sym", "havoc:" + (root[1] if root[0] == "sym" else "w"))
+            return self._havoc(root)
         if p[0] == "dc":
             if root[0] == "enum" and root[2] == p[1]:
                 return self.write_into(st, root, path[1:], newv, None)
@@ -286,9 +420,9 @@ class AI:
                 exp = self.expand_sym(root, ty, p[1])
                 if exp is not None:
                     return self.write_into(st, exp, path[1:], newv, None)
-            return ("sym", "havoc:" + (root[1] if root[0] == "sym" else "w"))
+            return self._havoc(root)
         # index writes: weak
-        return ("sym", "havoc:" + (root[1] if root[0] == "sym" else "w"))
+        return self._havoc(root)
 
     def expand_sym(self, symv, ty, variant):
         """sym of struct/tuple/enum-variant type -> structured value with derived field syms."""
@@ -673,6 +807,25 @@ class AI:
             ga = callee.get("ga", [])
             if len(ga) == 2 and ga[0] == ga[1]:
                 return [(st, args[0])]
+        if decl in ("std::ops::Deref::deref", "std::convert::AsRef::as_ref", "std::borrow::Borrow::borrow",
+                    "std::ops::DerefMut::deref_mut") and args and not callee.get("local"):
+            v = self.resolve(st, args[0])
+            if v[0] in ("ref", "sym"):
+                return [(st, v)]
+        if path in ("std::string::String::as_str", "std::vec::Vec::as_slice") and args:
+            return [(st, self.resolve(st, args[0]))]
+        if path in ("std::intrinsics::discriminant_value", "core::intrinsics::discriminant_value") and args:
+            v = self.deref_val(st, args[0])
+            ga = callee.get("ga", [])
+            ty = M.Ty(self.cr, ga[0]) if ga else None
+            alts = self.fork_enum(st, v, ty) if v is not None else None
+            if alts is not None:
+                outs = []
+                for s2, ev in alts:
+                    a = self.cr.adts.get(ev[1])
+                    d = a["variants"][ev[2]]["discr"] if a else ev[2]
+                    outs.append((s2, ("int", d)))
+                return outs
         if path in ("std::mem::replace",) and len(args) == 2:
             v = self.resolve(st, args[0])
             if v[0] == "ref":
@@ -762,8 +915,16 @@ class AI:
                     target_key = fv[1]
                     tup = self.resolve(st, args[1]) if len(args) > 1 else ("tuple", ())
                     call_args = list(tup[1]) if tup[0] == "tuple" else None
+        post = None
+        if via in ("direct", "trait") and M.norm_path(callee.get("path", "")) == "std::cmp::PartialEq::ne" and "self" in callee:
+            sp = self.cr.ty_adt(callee["self"])
+            if sp:
+                ek = "<%s as std::cmp::PartialEq<%s>>::eq" % (sp, sp)
+                if ek in self.cr.fns:
+                    target_key = ek
+                    post = "not"
         # 2. models
-        m = self.model_call(st, frame, term, callee, args)
+        m = self.model_call(st, frame, term, callee, args) if post is None else None
         if m is not None:
             outs = []
             for s2, val in m:
@@ -802,6 +963,7 @@ class AI:
                         nf.locals[i + 1] = v
                     nf.ret_place = term["dest"]
                     nf.ret_to = to
+                    nf.post = post
                     s2.frames.append(nf)
                     return [s2]
         # 4. opaque
@@ -869,11 +1031,17 @@ class AI:
         seen = set()
         while work:
             st = work.pop()
-            self.gc(st)
-            k = st.key()
-            if k in seen:
-                continue
-            seen.add(k)
+            fr = st.top
+            joins, live_in, borrowed = body_info(fr.body)
+            if fr.bb in joins or fr.bb == 0:
+                li = live_in[fr.bb]
+                for l in [l for l in fr.locals if l not in li and l not in borrowed and l != 0 and l > fr.body["argc"]]:
+                    del fr.locals[l]
+                self.gc(st)
+                k = st.key()
+                if k in seen:
+                    continue
+                seen.add(k)
             self.n_states += 1
             if self.n_states > self.max_states:
                 raise Undecided("state budget exceeded in %s" % fkey)
@@ -978,6 +1146,9 @@ class AI:
                 return []
             depth = fr.depth
             val = self.externalize(st, val, depth, "ret:%s%s" % (fr.prefix, short(fr.fkey)))
+            if fr.post == "not":
+                rv = self.resolve_bool(st, val)
+                val = ("bool", not rv[1]) if rv[0] == "bool" else (self.derived_not(st, rv) if rv[0] == "sym" else val)
             st.frames.pop()
             caller = st.top
             self.write_place(st, caller, fr.ret_place, val)
